@@ -32,6 +32,8 @@ fn main() {
 			let tier = args.get(2).map(|s| s.as_str()).unwrap_or("quick");
 			if tier != "thorough" {
 				par::LIMIT_DEFAULT.store(120, std::sync::atomic::Ordering::SeqCst);
+			} else {
+				search::MERGE_CHECK_DEFAULT.store(true, std::sync::atomic::Ordering::SeqCst);
 			}
 			props::run(p, tier)
 		},
